@@ -189,7 +189,7 @@ def main(tier):
     for d in bad:
         if d is not None:
             rep.violation(d, finding=classify(d))
-    error_runs(rep, tier, ERR_JUDGED, groups=("core", "errors", "validity"))
+    error_runs(rep, tier, ERR_JUDGED, groups=("core", "errors", "validity", "control"))
     rep.exhaustive = True
     rep.extra["policies"] = 64
     rep.extra["error_kinds"] = sorted(COMPONENT)
